@@ -63,8 +63,10 @@ def doc_hook(I, p, fr, t, args):
             return Doc([("hardline",)])
         if n in ("line_", "softline", "softline_", "nil"):
             return Doc([])
-        if n in LAYOUT_ONLY:
+        if n in LAYOUT_ONLY or n in ("clone", "to_owned", "borrow", "deref"):
             return to_doc(I, args[0])
+        if n == "enclose" and len(args) > 2:
+            return to_doc(I, args[1]) + to_doc(I, args[0]) + to_doc(I, args[2])
         if n in ("parens", "brackets", "braces", "angles", "double_quotes", "single_quotes"):
             o, cl = {"parens": "()", "brackets": "[]", "braces": "{}", "angles": "<>", "double_quotes": '""', "single_quotes": "''"}[n]
             return Doc([("text", o)]) + to_doc(I, args[0]) + Doc([("text", cl)])
